@@ -76,7 +76,7 @@ func (c *Conn) handleSearch(tag string, dec *imapwire.Decoder, numKind NumKind) 
 	}
 
 	// If no return option is specified, ALL is assumed
-	if !options.ReturnMin && !options.ReturnMax && !options.ReturnAll && !options.ReturnCount {
+	if !options.ReturnMin && !options.ReturnMax && !options.ReturnAll && !options.ReturnCount && !options.ReturnSave {
 		options.ReturnAll = true
 	}
 
